@@ -45,7 +45,10 @@ RULE = ("a case = (history of 3-6 batches / multi-dataset transactions / clean r
         "and reads again; datasets created without / with publicNamespaces; (c) ONE batch of 66000 generated entities through "
         "Dataset.StoreEntities, refused because of its last entity / killed at its first batch.afterCommit (thorough: more points), "
         "judged on counts; (d) a batch refused (nil reference) at the very instant another writer stands at batch/txn.beforeIdCommit "
-        "or afterIdCommit holding uncommitted new ids (run inside the hook), then clean close, reopen, reads by URI, same write again")
+        "or afterIdCommit holding uncommitted new ids (run inside the hook), then clean close, reopen, reads by URI, same write again; "
+        "(e) a transaction over three datasets whose first / middle / last dataset (by name; list order shuffled) ends in an entity with a "
+        "nil reference: must be refused and leave nothing anywhere; (f) about 1 in 5 posted entities carries an upstream \"recorded\" "
+        "value as the HTTP body parser would keep it: the stored version's recorded must equal the time in its version key")
 TRUSTED = [
     "badger: a committed transaction is atomic and durable, Sequence leases are persisted before first use (a crash here is process death "
     "at a hook point or by SIGKILL, not power loss; the OS page cache survives)",
@@ -133,6 +136,11 @@ def gen_history(rng, nw):
     if rng.chance(1, 3):
         writes.insert(rng.range(1, len(writes)), {"op": "restart"})
     tail = [{"op": "retry"}] + sc.gen_writes(rng, nds, 2, pool, rich=True)
+    for w in writes + tail:
+        for s_ in ([w] if w["op"] == "batch" else w.get("sets") or []):
+            for e in s_["ents"]:
+                if rng.chance(1, 5):
+                    e["rec"] = 1700000000000000000 + rng.below(1000)   # "recorded" of an upstream hub
     return sc.DS_NAMES[:nds], writes, tail, pool
 
 
@@ -220,8 +228,26 @@ def refuse_cases(rng, n):
     return res
 
 
+def rejtxn_cases(rng, n):
+    """a transaction over three datasets one of whose lists ends in an entity with a nil reference (first / middle / last dataset by
+    name): it must be refused and leave NOTHING in any dataset; then a clean close, reopen, one more write"""
+    res = []
+    for k in range(n):
+        pre = [{"op": "batch", "ds": d, "ents": [plain("e1", d)]} for d in ("a", "b", "c")][:rng.range(1, 3)]
+        sets = [{"ds": d, "ents": [{"id": "e%d" % (60 + 3 * k + j), "props": {"p1": d}, "refs": {"r%d" % (60 + k): "e1"}}, plain("e1", d + "2")]}
+                for j, d in enumerate(("a", "b", "c"))]
+        rng.shuffle(sets)
+        for bad in ("a", "b", "c"):
+            tx = {"op": "txn", "sets": sets, "reject_in": bad}
+            c = mk_case(["a", "b", "c"], pre + [tx], None, [{"op": "batch", "ds": "a", "ents": [plain("e%d" % (60 + 3 * k), "again")]}],
+                        ["e1"] + ["e%d" % (60 + 3 * k + j) for j in range(3)])
+            c["rejtxn"] = bad
+            res.append(c)
+    return res
+
+
 def gen(rng, tier):
-    return (gen_writes_cases(rng, tier) + gen_newpred_cases(rng, tier) + gen_mgmt(rng, {"quick": 1, "thorough": 6, "search": 2}[tier])
+    return (rejtxn_cases(rng, {"quick": 2, "thorough": 10, "search": 3}[tier]) + gen_writes_cases(rng, tier) + gen_newpred_cases(rng, tier) + gen_mgmt(rng, {"quick": 1, "thorough": 6, "search": 2}[tier])
             + long_cases(tier) + refuse_cases(rng, {"quick": 6, "thorough": 30, "search": 9}[tier]))
 
 
@@ -445,6 +471,8 @@ def term(c, o):
         return NEUTRAL if (o.get("outcome") == "ok" and o.get("mgmt")) else BAD
     if c.get("long"):
         return NEUTRAL if (o.get("outcome") == "ok" and o.get("long")) else BAD
+    if c.get("rejtxn"):
+        return NEUTRAL if usable(o) else BAD       # same reason as for refused batches below
     if c.get("refuse"):
         # a refused batch leaves its own pending ids in the shared id transaction (committed by the next writer): Model/Crash.v has
         # no pending ids between writes, Model/CrashExt.v (idtxn) does; the case is judged by refuse_problems
@@ -551,6 +579,11 @@ def dump_problems(dump, what):
             break
     ids = dump.get("ids") or {}
     for d in dump["ds"]:
+        for e, kt in zip(d["changes"], d.get("seqtimes") or []):
+            if kt != -1 and e.get("rec", 0) != kt:
+                out.append("%s: version of %s in %s says recorded=%s but sits under time %s in its version key / change entry" % (
+                    what, sc.expand(e["id"], ns), d["name"], e.get("rec"), kt))
+                break
         seen = {}
         for e in d["listing"]:
             u = sc.expand(e["id"], ns)
@@ -704,6 +737,24 @@ def refuse_problems(c, o):
     return out
 
 
+def rejtxn_problems(c, o):
+    """a transaction refused because of ANY of its datasets is refused as a whole: error returned, nothing of it anywhere"""
+    if not usable(o):
+        return ["driver outcome %s: %s" % (o.get("outcome"), (o.get("detail") or (o.get("after") or {}).get("err") or "")[:300])]
+    out = []
+    n = len(c["ops"]) - 1
+    errs = [e for i, e in done_ops(o["trace"]) if i == n]
+    if not errs or not errs[0]:
+        out.append("the transaction whose dataset %s holds an entity with a nil reference was acknowledged" % c["rejtxn"])
+    out += write_case_problems(c, o)
+    for name in c["datasets"]:
+        a, r = canon_ds(o["after"], name), canon_ds(o["refA"], name)
+        if a != r:
+            out.append("after restart dataset %s holds %d change entries / %d entities; without the refused transaction it holds %d / %d" % (
+                name, len(a["changes"]), len(a["listing"]), len(r["changes"]), len(r["listing"])))
+    return out
+
+
 def write_case_problems(c, o):
     out = []
     for name in ("after", "final"):
@@ -714,6 +765,8 @@ def write_case_problems(c, o):
 def predict_text(c, o):
     if c.get("mgmt"):
         return "dataset-management case (harness-level oracle): " + "; ".join(mgmt_problems(c, o) or ["no problem found"])
+    if c.get("rejtxn"):
+        return "refused-transaction case (harness-level oracle): " + "; ".join(rejtxn_problems(c, o) or ["no problem found"])
     if c.get("long"):
         return "long-batch case (harness-level oracle): " + "; ".join(long_problems(c, o) or ["no problem found"])
     if c.get("refuse"):
@@ -736,7 +789,7 @@ def counter_lag(o):
 
 
 def attribute(c, o):
-    if c.get("mgmt") or c.get("long") or c.get("refuse"):
+    if c.get("mgmt") or c.get("long") or c.get("refuse") or c.get("rejtxn"):
         return None
     if usable(o) and write_case_problems(c, o):
         return None
@@ -752,6 +805,8 @@ def size(c):
 
 
 def classify(c, o):
+    if c.get("rejtxn"):
+        return "refused-transaction"
     if c.get("long"):
         return "long-batch"
     if c.get("refuse"):
@@ -769,6 +824,9 @@ def classify(c, o):
 
 
 def tags(c, o):
+    if c.get("rejtxn"):
+        order = [s_["ds"] for s_ in c["ops"][-1]["sets"]]
+        return ["refused-transaction", "bad-dataset=" + c["rejtxn"], "outcome=" + o.get("outcome", "?")]
     if c.get("long"):
         return ["long-batch", "bad=%s" % bool(c["long"].get("bad")), "point=" + ((c.get("crash") or {}).get("point") or "none"), "child-exit=%s" % o.get("exit")]
     if c.get("refuse"):
@@ -815,6 +873,11 @@ def main(tier, seed, replay=None):
                 pr = long_problems(c, o)
                 if pr:
                     bad.append((i, c, o, "long batch (%d entities, crash %s): %s" % (c["long"]["n"], json.dumps(c.get("crash")), pr[0])))
+                continue
+            if c.get("rejtxn"):
+                pr = rejtxn_problems(c, o)
+                if pr:
+                    bad.append((i, c, o, "multi-dataset transaction with a refusing entity in dataset %s: %s" % (c["rejtxn"], pr[0])))
                 continue
             if c.get("refuse"):
                 pr = refuse_problems(c, o)
